@@ -7,6 +7,7 @@
 -/
 import RtoscModel.Proofs.ScanRep
 import RtoscModel.Proofs.ScanList
+import RtoscModel.Proofs.PrettyTokArray
 namespace Rtosc.Pretty.C11
 open Rtosc Rtosc.Libc Rtosc.Pretty
 open Rtosc.ArgVal (Cell)
@@ -72,6 +73,18 @@ theorem lastTy_cons (ty : UInt8) (p : Bytes × List Cell) (more : List (Bytes ×
   cases more with
   | nil => exact absurd rfl h
   | cons q r => cases p; rfl
+
+theorem lastTy_ne (a b : UInt8) : ∀ (more : List (Bytes × List Cell)), more ≠ [] → lastTy a more = lastTy b more := by
+  intro more
+  induction more with
+  | nil => intro h; exact absurd rfl h
+  | cons p r ih =>
+    intro _
+    cases r with
+    | nil => cases p; rfl
+    | cons q r' =>
+      rw [lastTy_cons a p (q :: r') (by simp), lastTy_cons b p (q :: r') (by simp)]
+      exact ih (by simp)
 
 /-! ### the scanner's element loop -/
 
@@ -141,7 +154,7 @@ theorem scanElems_body {tcs : List (Bytes × List Cell)} {body : Bytes} (h : Arr
       (by simp at hlf; omega) (fun p hp => hlen p (by simp [hp]))
     refine ⟨prev', i', pok', ?_⟩
     have e : t ++ (w ++ body) ++ 93 :: rest = t ++ (w ++ (body ++ 93 :: rest)) := by simp
-    rw [e, hstep, hsk, hrec, lastTy_cons _ _ _ hmore]
+    rw [e, hstep, hsk, hrec, lastTy_cons _ _ _ hmore, lastTy_ne ty' ty more hmore]
     simp [allCells, List.append_assoc]
 
 /-! ### the checker's element loop -/
@@ -194,7 +207,8 @@ theorem skipElems_body {tcs : List (Bytes × List Cell)} {body : Bytes} (h : Arr
     exact ⟨recent, by simp [allCells]⟩
   | last t cs w ht hw =>
     intro rest f lf recent aty skipped hlf hlen ha htys
-    obtain ⟨l, rfl⟩ : ∃ l, lf = l + 1 := ⟨lf - 1, by simp at hlf; omega⟩
+    simp only [List.length_cons, List.length_nil] at hlf
+    obtain ⟨l, rfl⟩ : ∃ l, lf = l + 1 := ⟨lf - 1, by omega⟩
     have hstep := skipElems_step f t cs (w ++ 93 :: rest) l recent aty skipped ht (sep_close w rest hw)
       (hlen (t, cs) (by simp)) (Or.inr (htys (t, cs) (by simp)))
     have hsk : skipSpace (w ++ 93 :: rest) = 93 :: rest := by
@@ -204,7 +218,8 @@ theorem skipElems_body {tcs : List (Bytes × List Cell)} {body : Bytes} (h : Arr
     simp [allCells, ha]
   | cons t cs w more body ht hw hwne hmore hbody ih =>
     intro rest f lf recent aty skipped hlf hlen ha htys
-    obtain ⟨l, rfl⟩ : ∃ l, lf = l + 1 := ⟨lf - 1, by simp at hlf; omega⟩
+    simp only [List.length_cons] at hlf
+    obtain ⟨l, rfl⟩ : ∃ l, lf = l + 1 := ⟨lf - 1, by omega⟩
     have hstart : TokStart (body ++ 93 :: rest) := by
       rcases hbody.start_or_close rest with ⟨h1, _⟩ | h
       · exact absurd h1 hmore
@@ -214,16 +229,19 @@ theorem skipElems_body {tcs : List (Bytes × List Cell)} {body : Bytes} (h : Arr
     have hsk : skipSpace (w ++ (body ++ 93 :: rest)) = body ++ 93 :: rest := by
       rw [skipSpace_allWs w _ hw]; exact skipSpace_tokStart _ hstart
     obtain ⟨recent', hrec⟩ := ih rest f l (some (t ++ (w ++ (body ++ 93 :: rest)))) aty (skipped + cs.length)
-      (by simp at hlf; omega) (fun p hp => hlen p (by simp [hp])) ha (fun p hp => htys p (by simp [hp]))
+      (by omega) (fun p hp => hlen p (by simp [hp])) ha (fun p hp => htys p (by simp [hp]))
     refine ⟨recent', ?_⟩
     have e : t ++ (w ++ body) ++ 93 :: rest = t ++ (w ++ (body ++ 93 :: rest)) := by simp
     rw [e, hstep, hsk]
     simp only [ha, ↓reduceIte]
     rw [hrec]
-    simp only [allCells, List.map_cons, List.flatten_cons, List.length_append, List.length_cons]
-    congr 2
-    push_cast
-    omega
+    have e1 : l + 1 - ((t, cs) :: more).length = l - more.length := by simp
+    have e2 : skipped + (cs.length : Int) + ((allCells more).length : Int) =
+        skipped + ((allCells ((t, cs) :: more)).length : Int) := by
+      simp only [allCells, List.map_cons, List.flatten_cons, List.length_append]
+      push_cast
+      omega
+    rw [e1, e2]
 
 /-! ### the array -/
 
@@ -309,6 +327,9 @@ theorem arg11_array {tcs : List (Bytes × List Cell)} {body : Bytes} (h : ArrBod
     obtain ⟨f, rfl⟩ : ∃ f, fuel = f + 1 := ⟨fuel - 1, by omega⟩
     have h3 := (sep_skipSpace_facts rest hs).2
     refine ⟨⟨some rest, 1 + (allCells tcs).length, 97⟩, ?_, rfl, by simp; omega, by simp [ArgVal.Cell.type, ArgVal.tyA]⟩
+    have hall : ∀ p ∈ tcs, p.1.length ≤ f := fun p hp => by have := hlen2 p hp; omega
+    have hfuel : tcs.length + 1 ≤ (arrText b0 body ++ rest).length := by
+      simp only [List.length_append]; omega
     -- the element loop
     have hloop : skipArrayElems (C11.skipNextPrintedArg (f + 1)) ((arrText b0 body ++ rest).length + 1)
         (some (body ++ 93 :: rest)) none 0 1 = .ok (some (93 :: rest), 1 + (allCells tcs).length) := by
@@ -318,7 +339,7 @@ theorem arg11_array {tcs : List (Bytes × List Cell)} {body : Bytes} (h : ArrBod
         simp [allCells]
       | last t cs w ht hw =>
         have hstep := skipElems_step f t cs (w ++ 93 :: rest) (arrText b0 (t ++ w) ++ rest).length none 0 1 ht
-          (sep_close w rest hw) (by have := hlen2 (t, cs) (by simp); omega) (Or.inl rfl)
+          (sep_close w rest hw) (hall (t, cs) (by simp)) (Or.inl rfl)
         have hsk : skipSpace (w ++ 93 :: rest) = 93 :: rest := by
           rw [skipSpace_allWs w _ hw]; simp [skipSpace, isspace]
         rw [List.append_assoc, hstep, hsk]
@@ -333,7 +354,7 @@ theorem arg11_array {tcs : List (Bytes × List Cell)} {body : Bytes} (h : ArrBod
           · exact h
         have hstep := skipElems_step f t cs (w ++ (body' ++ 93 :: rest))
           (arrText b0 (t ++ (w ++ body')) ++ rest).length none 0 1 ht
-          (sep_next w _ hw hwne hstart) (by have := hlen2 (t, cs) (by simp); omega) (Or.inl rfl)
+          (sep_next w _ hw hwne hstart) (hall (t, cs) (by simp)) (Or.inl rfl)
         have hsk : skipSpace (w ++ (body' ++ 93 :: rest)) = body' ++ 93 :: rest := by
           rw [skipSpace_allWs w _ hw]; exact skipSpace_tokStart _ hstart
         have hne0 : skipTy cs ≠ 0 := by
@@ -343,21 +364,24 @@ theorem arg11_array {tcs : List (Bytes × List Cell)} {body : Bytes} (h : ArrBod
         obtain ⟨hl1, hl2⟩ := body_length_le hbody
         obtain ⟨recent', hrec⟩ := skipElems_body hbody rest f (arrText b0 (t ++ (w ++ body')) ++ rest).length
           (some (t ++ (w ++ (body' ++ 93 :: rest)))) (skipTy cs) (1 + cs.length)
-          (by simp [arrText]; omega)
-          (fun p hp => by have := hlen2 p (by simp [hp]); omega) hne0 htys
+          (by simp only [List.length_cons] at hfuel; omega)
+          (fun p hp => hall p (by simp [hp])) hne0 htys
         have e : t ++ (w ++ body') ++ 93 :: rest = t ++ (w ++ (body' ++ 93 :: rest)) := by simp
         rw [e, hstep, hsk]
         simp only [↓reduceIte]
         rw [hrec]
         obtain ⟨l, hl⟩ : ∃ l, (arrText b0 (t ++ (w ++ body')) ++ rest).length - more.length = l + 1 :=
-          ⟨(arrText b0 (t ++ (w ++ body')) ++ rest).length - more.length - 1, by simp [arrText]; omega⟩
+          ⟨(arrText b0 (t ++ (w ++ body')) ++ rest).length - more.length - 1, by
+            simp only [List.length_cons] at hfuel; omega⟩
         rw [hl]
         unfold skipArrayElems
-        simp only [hd_cons, ne_eq, not_true_eq_false, and_false, ↓reduceIte, allCells, List.map_cons,
-          List.flatten_cons, List.length_append]
-        congr 3
-        push_cast
-        omega
+        simp only [hd_cons, ne_eq, not_true_eq_false, and_false, ↓reduceIte]
+        have e2 : (1 : Int) + (cs.length : Int) + ((allCells more).length : Int) =
+            1 + ((allCells ((t, cs) :: more)).length : Int) := by
+          simp only [allCells, List.map_cons, List.flatten_cons, List.length_append]
+          push_cast
+          omega
+        rw [e2]
     unfold C11.skipNextPrintedArg
     have hsv : skipValue (C11.skipNextPrintedArg (f + 1)) (arrText b0 body ++ rest) ty ib =
         .ok (some ⟨some rest, 1 + (allCells tcs).length, 97, 0⟩) := by
